@@ -9,6 +9,7 @@ from ..domains.kernel import Vec, Mat, PieceVec, Prod2
 from ..domains.origin import OriginDomain, Og, Real, half as ohalf, Ix
 from ..domains.normdom import Sym
 from . import ftkernels as K
+from .purity import memo_inplace, input_mutations
 import re
 
 
@@ -309,6 +310,28 @@ def cache_rules(run, db):
     run.check(clr is not None and 'self.components' in ast.unparse(clr.node), 'C01.cache', cz.qual + '.clear', 'clear', 'clear() resets the chirp cache', 'clear() does not reset components', '')
 
 
+def fresh_rules(run, db, rule='C01.cache'):
+    """Coordinate vectors that are shifted in place must be fresh per call (not handed out by a memo)."""
+    mods = ['prysm.fttools', 'prysm.propagation', 'prysm.coordinates', 'prysm._richdata']
+    hits = memo_inplace(db, mods)
+    for fi, st, callee in hits:
+        run.finding(rule, fi.qual, norm_stmt(st), 'in-place operation on the result of the memoised function %s: every later call that receives the same cached array sees the modification (results depend on call history)' % callee.qual, fi.loc(st))
+    n = 0
+    for q in ('prysm.fttools.fftrange', 'prysm.fttools.fftfreq', 'prysm.fttools.forward_ft_unit', 'prysm.coordinates.make_xy_grid'):
+        fi = db.func(q)
+        n += 1
+        memo = [d for d in fi.decorators if 'cache' in d]
+        shared = [h for h in hits if h[2].qual == fi.qual]
+        run.check(not (memo and shared), rule, fi.qual, 'fresh result', '%s returns storage that no caller mutates while shared' % fi.name,
+                  '%s is memoised (%s) and its result is modified in place by %s' % (fi.name, memo, [h[0].qual for h in shared]), fi.loc())
+    for q in ('prysm.fttools.MatrixDFTExecutor.dft2', 'prysm.fttools.MatrixDFTExecutor.idft2', 'prysm.fttools.ChirpZTransformExecutor.czt2', 'prysm.fttools.ChirpZTransformExecutor.iczt2',
+              'prysm.propagation.focus', 'prysm.propagation.unfocus', 'prysm.propagation.focus_fixed_sampling', 'prysm.propagation.unfocus_fixed_sampling', 'prysm.fttools.pad2d'):
+        fi = db.func(q)
+        for st, name in input_mutations(fi):
+            run.finding(rule, fi.qual, norm_stmt(st), 'in-place write through the argument `%s`: the caller\'s input array is modified by the transform' % name, fi.loc(st))
+        run.ok(rule, fi.qual, 'input arrays are not written through')
+
+
 def origin_rules(run, db):
     for name, direction in (('focus', 'fft2'), ('unfocus', 'ifft2')):
         f = db.func('prysm.propagation.' + name)
@@ -384,6 +407,7 @@ def check(run, db, tier):
     run.rule('C01.origin', 'FFT route: centred in => centred out with no phase ramp, odd and even lengths')
     run.rule('C01.dispatch', "both method strings reach their engine with identical arguments")
     run.group(cache_rules, run, db)
+    run.group(fresh_rules, run, db)
     run.group(mdft_rules, run, db)
     run.group(czt_rules, run, db)
     run.group(iczt_rule, run, db)
